@@ -16,6 +16,8 @@ CLAIMED = {
              ref='section 4 C03', note=COMMON_NOTE + "T-LOOP (idealised call_later), A-REAL, A-IMMUT (same object = byte-identical copy)."),
  'C04': dict(text="Deductive proof of the deduplication functions under the MessageManager object invariant: a (endpoint, MID) seen before returns True without upcall and re-sends exactly the stored ACK/RST for CON duplicates, a new one is remembered with one expiry timer of EXCHANGE_LIFETIME that forgets exactly that key; only acknowledgements of the remembered request are ever stored; dispatch_message passes requests on only when not duplicate.",
              ref='section 4 C04', note=COMMON_NOTE + "T-LOOP; A-REMOTE; A-OWN (the manager's dictionaries are distinct objects)."),
+ 'C05': dict(text="Deductive proof of the block arithmetic (BlockwiseTuple.size/start/reduced_to/is_valid_for_payload_size against RFC 7959 spec functions), of Message._extract_block/_append_response_block/_generate_next_block2_request (exact slices, more-flag, contiguity, ETag comparison, error classes), and of one iteration of both BlockwiseRequest loops against an arbitrary (possibly misbehaving) server response delivered at the await: the block on the wire is the slice at the cursor, the acknowledged number must be the sent one, the cursor afterwards is the first unsent byte (also across size reductions incl. BERT), the exponent never grows, the result future is set once and only after both phases.",
+             ref='section 4 C05', note=COMMON_NOTE + "every await is a scheduling point (heap havocked except the request objects the coroutine owns: A-IMMUT); the server behaviour is arbitrary within message well-formedness; Message.copy is an assumed contract; loss/duplication of single exchanges is C03/C04."),
  'C10': dict(text="Deductive proof that dispatch_message realises the RFC 7252 reaction table for every (type, code class), that _process_request/send_message acknowledge a CON request exactly once (piggy-backed or empty ACK, timer callback simulated), apply the RFC 7967 No-Response mask, choose the message type as specified and never hand a CON to a multicast destination to the transport.",
              ref='section 4 C10', note=COMMON_NOTE + "T-LOOP; A-REMOTE (as_response_address is the same endpoint value); behaviour after MessageManager.shutdown (forced NON) excluded from the piggy-back clauses; udp6 address predicates (is_multicast*) are abstract fields."),
  'C12': dict(text="Deductive proof that ReplayWindow implements the abstract 'seen' set: is_valid(n) iff n not seen; strike_out raises iff seen, otherwise adds exactly n (numbers falling out of the window become seen), keeps well-formedness and calls the callback once; initialisers establish the stated views. Integers used as bit fields are modelled as Int->Bool maps.",
